@@ -54,6 +54,11 @@ def trie_glyphs(shape, variant, palette, depth, anchors=False):
                     g["contours"] = [SMALLBOX]
                 elif variant == "shared":
                     g["components"] = g["components"] + [("r", (1, 0, 0, 1, 200.5, 0.5))]
+                elif variant == "multi":
+                    # several copies of the same (possibly nested) composite, like the dots of an
+                    # ellipsis: the same sub-tree is reached repeatedly from one glyph
+                    g["components"] = g["components"] + [(parent, (1, 0, 0, 1, 200.5, 0.5)),
+                                                         (parent, (1, 0, 0, 1, -30, 40))]
                 if anchors and i % 4 == 2:
                     # an anchor the composite already has: must stay, and blocks propagation of "top"
                     g["anchors"] = [("top", 1.5 + d, -2)]
@@ -316,7 +321,9 @@ class C15(Property):
         tries = [(s, d, pal) for s in b["shapes"]] + [(s, dd, list(B.QUICK_TRANSFORMS)) for s, dd in b["deep"]]
         # -- decomposition / flattening
         for shape, dd, pp in tries:
-            for variant in ("pure", "mixed", "shared"):
+            for variant in ("pure", "mixed", "shared", "multi"):
+                if variant == "multi" and shape not in ("tri", "two"):
+                    continue
                 for filt in ("DecomposeComponents", "DecomposeTransformedComponents", "FlattenComponents"):
                     for module in ("ufoLib2", "defcon"):
                         if module == "defcon" and (dd > d or shape not in b["defcon_shapes"]):
